@@ -12,6 +12,8 @@ import (
 	"bytes"
 	"encoding/json"
 	"fmt"
+	"os"
+	"path/filepath"
 	"sort"
 	"strings"
 	"testing"
@@ -55,6 +57,8 @@ func (c c16Case) view(store map[string]int, rootVariant int) gen.GraphCase {
 // c16IDs: `id`s of root schemas, several under the scheme and host of the documents of the histories.
 var c16IDs = []string{"other.json", "file:///w/a/sib.json", "file:///w/ids/x.json", "sub/", "http://r.example/w/ids.json", "https://r.example:8443/ids.json", "http://json-schema.org/draft-04/schema#", "#anchor"}
 
+var metaAssets = map[string]any{}
+
 var metaRefs = []string{
 	"http://swagger.io/v2/schema.json#/definitions/info",
 	"http://swagger.io/v2/schema.json#/definitions/license/properties/name",
@@ -71,14 +75,35 @@ func checkMeta(f *vstat.Failure, ref string, where string) {
 	refuse := func(p string) (json.RawMessage, error) {
 		return nil, fmt.Errorf("the loader must not be needed for a built-in meta-schema (asked for %s)", p)
 	}
-	var fresh *spec.Schema
+	// the reference is the asset file itself (what the package embeds), decoded here - not anything the package
+	// hands out, which could share storage with what an earlier call has touched
+	asset := "schemas/jsonschema-draft-04.json"
 	if strings.HasPrefix(ref, "http://swagger.io") {
-		fresh = spec.MustLoadSwagger20Schema()
-	} else {
-		fresh = spec.MustLoadJSONSchemaDraft04()
+		asset = "schemas/v2/schema.json"
 	}
-	var freshAny any
-	_ = json.Unmarshal(mustJSON(fresh), &freshAny)
+	repo := os.Getenv("VERIF_REPO")
+	if repo == "" {
+		repo = "/repo"
+	}
+	freshAny := metaAssets[asset]
+	if freshAny == nil {
+		if b, err := os.ReadFile(filepath.Join(repo, asset)); err == nil {
+			var sch spec.Schema
+			if json.Unmarshal(b, &sch) == nil {
+				_ = json.Unmarshal(mustJSON(&sch), &freshAny)
+				metaAssets[asset] = freshAny // (read-only from here on: decoded once per process)
+			}
+		}
+	}
+	if freshAny == nil {
+		var fresh *spec.Schema
+		if strings.HasPrefix(ref, "http://swagger.io") {
+			fresh = spec.MustLoadSwagger20Schema()
+		} else {
+			fresh = spec.MustLoadJSONSchemaDraft04()
+		}
+		_ = json.Unmarshal(mustJSON(fresh), &freshAny)
+	}
 	want, err := model.GetIn(freshAny, r.GetPointer().String())
 	if err != nil {
 		f.Add("HARNESS", where, "%v", err)
@@ -189,6 +214,24 @@ func oracleC16(c c16Case, fresh bool) (*vstat.Failure, bool) {
 			continue
 		case "meta":
 			checkMeta(f, st.Ref, where)
+		case "metaexpand":
+			// a caller loads a built-in meta-schema and expands its own copy of it
+			guard(f, where, func() {
+				var sch *spec.Schema
+				if st.Ref == "swagger" {
+					sch = spec.MustLoadSwagger20Schema()
+				} else {
+					sch = spec.MustLoadJSONSchemaDraft04()
+				}
+				refuse := func(p string) (json.RawMessage, error) { return nil, fmt.Errorf("nothing to load (asked for %s)", p) }
+				old := spec.PathLoader
+				spec.PathLoader = refuse
+				err := spec.ExpandSchema(sch, sch, nil)
+				spec.PathLoader = old
+				if err != nil {
+					f.Add("META-SCHEMA", where, "expanding a loaded copy of the %s meta-schema failed: %v", st.Ref, err)
+				}
+			})
 		case "idschema":
 			// a call whose root schema declares an `id` (what the resolver learns from it must die with the call)
 			guard(f, where, func() {
@@ -353,6 +396,8 @@ func genC16(t *rapid.T) c16Case {
 		case k <= 2:
 			// switch the whole store to variant v (documents this variant lacks keep their content, nothing in v refers to them)
 			c.Steps = append(c.Steps, c16Step{Op: "mutate", Variant: v, Docs: urls})
+		case k == 3 && gen.Pct(t, "metaexpand", 30):
+			c.Steps = append(c.Steps, c16Step{Op: "metaexpand", Ref: []string{"draft4", "swagger"}[gen.Uniform(t, "whichmeta", 2)]})
 		case k == 3 && rapid.Bool().Draw(t, "idschema"):
 			c.Steps = append(c.Steps, c16Step{Op: "idschema", Ref: c16IDs[gen.Uniform(t, "id", len(c16IDs))]})
 		case k == 3:
